@@ -110,70 +110,30 @@ def units_rules(c, facts, rule):
         c.ob(rule, key, "no wildcard / non-constant arm", not probs, "; ".join(probs) or "every variant has its own constant row")
 
 
-def frames_leaf(facts, leaf, spec):
-    """Check the per-Action table of complex_frames. Returns problems list."""
+def frames_leaf(facts, r, spec):
+    """Compare the per-action values of complex_frames (evaluated by treeq.check_exists) with the statement. -> problems"""
     probs = []
-    if leaf is None:
-        return ["no Expression::Action arm"]
-    binds = []
-    for p in rx.pat_cases(leaf["pat"]):
-        binds += rx.pat_bindings(p)
-    body = rx.peel(leaf["body"])
-    if body["k"] != "match" or not binds or not rx.is_var(body["scrut"], binds[0]):
-        return ["Action arm is not a match on the action"]
-    explicit = {}
-    wild = None
-    for arm in body["arms"]:
-        if arm["guard"] is not None:
-            probs.append("guarded arm")
-        for p in rx.pat_cases(arm["pat"]):
-            pv = rx.pat_variant(p)
-            if pv:
-                explicit[pv[0].split("::")[-1]] = (p, arm)
-            elif rx.is_catchall(p):
-                wild = arm
-            else:
-                probs.append("unrecognised pattern %s" % psrc(p))
-    allv = facts.variants("Action")
-    hidden = [v for v in allv if v not in explicit]
-    if wild is not None and not (rx.peel(wild["body"])["k"] == "lit" and rx.peel(wild["body"])["v"] is False):
-        probs.append("wildcard yields %s" % src(wild["body"]))
-    if hidden and wild is None:
-        probs.append("actions %s not covered" % hidden)
-    for v in spec["always"]:
-        if v not in explicit:
-            probs.append("%s must force framed output but falls to the wildcard (false)" % v)
-        else:
-            b = rx.peel(explicit[v][1]["body"])
-            if not (b["k"] == "lit" and b["v"] is True):
-                probs.append("%s yields %s, must be true" % (v, src(b)))
-    for v in spec["never"]:
-        if v in explicit:
-            b = rx.peel(explicit[v][1]["body"])
-            if not (b["k"] == "lit" and b["v"] is False):
-                probs.append("%s yields %s, must be false" % (v, src(b)))
-    for v in allv:
+    table = r.get("action") or {}
+    if not table:
+        return ["the value for an action node could not be evaluated"]
+    for v in facts.variants("Action"):
+        rows = table.get(v)
         if v not in spec["always"] and v not in spec["never"] and v not in spec["conditional"]:
             probs.append("action %s is not classified by the specification" % v)
-    for v in spec["conditional"]:
-        if v not in explicit:
-            probs.append("%s must be decided by its last element" % v)
             continue
-        p, arm = explicit[v]
-        bn = rx.pat_bindings(p)
-        b = rx.peel(arm["body"])
-        ok = False
-        # format.last().is_some_and(|el| !matches!(el, FormatElement::Special(FormatSpecial::Newline)))
-        if b["k"] == "mcall" and b["m"] == "is_some_and" and len(b["args"]) == 1 and b["args"][0]["k"] == "closure":
-            r = b["recv"]
-            if r["k"] == "mcall" and r["m"] == "last" and bn and rx.is_var(r["recv"], bn[0]):
-                cb = rx.closure_body(b["args"][0])
-                pn = rx.closure_params(b["args"][0])[0].get("name")
-                if cb["k"] == "unary" and cb["op"] == "!" and cb["e"]["k"] == "macro" and cb["e"]["name"] == "matches" and rx.is_var(cb["e"]["e"], pn) and cb["e"]["guard"] is None:
-                    if psrc(cb["e"]["pat"]) == "FormatElement::Special(FormatSpecial::Newline)":
-                        ok = True
-        if not ok:
-            probs.append("%s rule is `%s`; must be: last element exists and is not Special(Newline)" % (v, src(b)))
+        if not rows:
+            probs.append("%s: no value" % v)
+            continue
+        for desc, val in rows:
+            if v in spec["always"]:
+                want = True
+            elif v in spec["never"]:
+                want = False
+            else:
+                want = desc == "ends in something else"
+            if val is not want:
+                probs.append("%s%s yields %s, must be %s" % (v, (" with some format that %s" % ("is empty" if desc == "empty" else desc)) if desc else "", val, str(want).lower()))
+                break
     return probs
 
 
@@ -190,14 +150,15 @@ def run(c, facts, tier):
     # C19.action
     fa = facts.fn("Expression::action")
     r = treeq.check_exists(facts, fa)
-    c.ob("C19.action", fa.key, "recursive exists over every operator variant", r["ok"], "; ".join(r["problems"]) or "Action → true; every Operator variant recurses into all its sub-expressions with ||; the wildcard hides only %s" % r["hidden"])
-    leaf_ok = r["leaf"] is not None and rx.peel(r["leaf"]["body"])["k"] == "lit" and rx.peel(r["leaf"]["body"])["v"] is True
-    c.ob("C19.action", fa.key, "an action node yields true", leaf_ok, "Action arm: %s" % (src(r["leaf"]["body"]) if r["leaf"] else None))
+    c.ob("C19.action", fa.key, "recursive exists over every operator variant", r["ok"], "; ".join(r["problems"]) or "every Operator variant yields the disjunction of the recursive results on all its sub-expressions (every assignment evaluated); %s nodes yield false" % r["hidden"])
+    act_vals = {a: [v_ for _, v_ in rows] for a, rows in (r.get("action") or {}).items()}
+    leaf_ok = bool(act_vals) and all(all(v_ is True for v_ in vs) for vs in act_vals.values())
+    c.ob("C19.action", fa.key, "an action node yields true", leaf_ok, "value for an action node, per action: %s" % ({a: sorted(set(map(str, vs))) for a, vs in act_vals.items() if not all(v_ is True for v_ in vs)} or "true for all %d actions" % len(act_vals)))
     # C19.frames
     ff = facts.fn("Expression::complex_frames")
     r2 = treeq.check_exists(facts, ff)
-    c.ob("C19.frames", ff.key, "recursive exists over every operator variant", r2["ok"], "; ".join(r2["problems"]) or "recursion is complete; the wildcard hides only %s" % r2["hidden"])
-    lp = frames_leaf(facts, r2["leaf"], fspec)
+    c.ob("C19.frames", ff.key, "recursive exists over every operator variant", r2["ok"], "; ".join(r2["problems"]) or "every Operator variant yields the disjunction of the recursive results on all its sub-expressions; %s nodes yield false" % r2["hidden"])
+    lp = frames_leaf(facts, r2, fspec)
     c.ob("C19.frames", ff.key, "per-action rule equals the statement", not lp, "; ".join(lp) or "file-writing ×4 and PrintNull → true; PrintFormatted → last element exists and is not Special(Newline); others → false")
     # the method names the rules above read (`last`, `is_some_and`, ...) mean what they say only if they resolve to the
     # standard library: on the type-checked program, every call made from the two helpers goes either to std/core/alloc or
